@@ -63,7 +63,10 @@ def main():
                 f'rules/{pid}.py (confirmed by reading the pinned commit); '
                 'implicit exceptions are not CFG edges; dynamic features '
                 '(getattr/setattr/monkey-patching) are outside the analysed '
-                'program.'),
+                'program. Rules run on the refactoring-normal form of the '
+                'tree (sa/normalize.py, DESIGN.md 9.1a: behaviour-preserving '
+                'rewrites relative to sa/reference.json, listed in the '
+                'evidence notes; assumption A-alias for attribute aliases).'),
             'technique': getattr(
                 mod, 'TECHNIQUE',
                 'static analysis: AST path-condition (guard dominance), '
@@ -93,8 +96,13 @@ def main():
                 '(dominating guard) collector with early exits and helper '
                 'expansion, hand-built statement CFG with dominance / '
                 'post-dominance, attribute-store effects, SQL/schema model, '
-                'operator-exact pattern matcher; frozen per-property '
-                'instance tables in /verif/rules'),
+                'operator-exact pattern matcher, refactoring-normal form '
+                '(canonical spellings + inline-new-helper / rename-back / '
+                'propagate-new-temp relative to a reference snapshot); frozen '
+                'per-property instance tables in /verif/rules; both-ways '
+                'batteries: per-rule self-test variants, sub-agent seeded '
+                'changes, sub-agent benign refactors, 15 mass '
+                'behaviour-preserving rewrites (tools/)'),
         }],
         'checks': checks,
         'not_applicable': na,
